@@ -36,6 +36,7 @@ def run(ctx):
     d_activation(ctx)
     e_start_under_live_parent(ctx, t)
     a_action_tracking(ctx, t)
+    a_finished_actions_get_no_events(ctx, t)
     d_cleanup_keeps_reference(ctx, t)
     d_deactivation(ctx, t)
     try:
@@ -47,6 +48,39 @@ def run(ctx):
 
 def _status_names(test):
     return sorted({n.attr for n in ast.walk(test) if isinstance(n, ast.Attribute) and isinstance(n.value, ast.Name) and n.value.id == "ActionStatus"})
+
+
+def a_finished_actions_get_no_events(ctx, t):
+    """`no Stop is ever sent for an action that ... already finished`: Action.process_event lets a Start event take a FINISHED action back to STARTING (a finished action object
+    may be started again by its owner).  Events that merely ARRIVE for an action - the Start echo of an instant action that the integration feeds back after its Finished - must
+    therefore not be delivered to a finished action, or it looks unfinished again and gets a Stop when its flow ends.  Decided: in _update_action_status_by_event no call of
+    process_event is reachable for an action whose status is FINISHED."""
+    from ..source import truth as _truth
+    fn = find_function(t, "_update_action_status_by_event")
+    if fn is None:
+        raise AnalysisError("_update_action_status_by_event not found", anchor=SM + "::_update_action_status_by_event")
+    cfg = CFG(fn)
+    calls = [n for n in cfg.nodes if n.ast is not None and any(isinstance(c, ast.Call) and isinstance(c.func, ast.Attribute) and c.func.attr == "process_event" for c in walk_no_nested(n.ast))]
+    ctx.floor("C06.a.finished-no-events", SM, "deliveries of an action event to an action object", len(calls), 1)
+    fin = (lambda a: isinstance(a, ast.Compare) and len(a.ops) == 1 and isinstance(a.ops[0], (ast.Eq, ast.Is)) and ".status" in src(a.left) and src(a.comparators[0]).endswith("FINISHED"))
+    nfin = (lambda a: isinstance(a, ast.Compare) and len(a.ops) == 1 and isinstance(a.ops[0], (ast.NotEq, ast.IsNot)) and ".status" in src(a.left) and src(a.comparators[0]).endswith("FINISHED"))
+    reach = set()
+    stack = [cfg.entry]
+    while stack:
+        x = stack.pop()
+        if x in reach:
+            continue
+        reach.add(x)
+        tv = _truth(x.ast, {fin: True, nfin: False}) if x.kind == "test" and isinstance(x.ast, ast.expr) else None
+        stack.extend(m for m, lab in x.succ if not (tv is not None and lab in (True, False) and lab is not tv))
+    # a status test must exist at all: without one, "reachable when FINISHED" is trivially true
+    tested = any(n.kind == "test" and isinstance(n.ast, ast.expr) and any(fin(a) or nfin(a) for a in ast.walk(n.ast)) for n in cfg.nodes)
+    leak = [n for n in calls if n in reach]
+    ok = bool(calls) and tested and not leak
+    ctx.check("C06.a.finished-no-events", SM, fn.name, "a finished action receives no further events", ok,
+              "process_event is only reached for actions whose status is not FINISHED" if ok else
+              "an event is delivered to an action that has already FINISHED: the Start echo of an instant action takes it back to STARTING, it counts as unfinished again and "
+              "`Stop...Action` is sent for it when its flow ends - a Stop for an action that finished long ago", line=(leak[0].line if leak else fn.lineno))
 
 
 def a_stop_discipline(ctx, t):
